@@ -232,6 +232,18 @@ func runCheck(o *checkOpts) int {
 	byBackend := map[string]int{}
 	solverSecs := 0.0
 	var samples []map[string]interface{}
+	// exit covers: a function is vacuous only if none of its path ends can be reached
+	exitAll := map[string]int{}
+	exitDead := map[string]int{}
+	for _, r := range results {
+		if r.Ob.Cover && strings.Contains(r.Ob.Name, "#cover.exit") {
+			exitAll[r.Ob.Func]++
+			if r.Status == "discharged" {
+				exitDead[r.Ob.Func]++
+			}
+		}
+	}
+	reportedVac := map[string]bool{}
 	for _, r := range results {
 		solverSecs += r.Secs
 		if r.Ob.Cover {
@@ -239,7 +251,12 @@ func runCheck(o *checkOpts) int {
 			if r.Status == "refuted" {
 				nCoverOK++
 			} else if r.Status == "discharged" {
-				// vacuous: something reachable became unreachable
+				isExit := strings.Contains(r.Ob.Name, "#cover.exit")
+				if isExit && (exitDead[r.Ob.Func] < exitAll[r.Ob.Func] || reportedVac[r.Ob.Func]) {
+					continue // a dead path end (e.g. a branch excluded by the precondition); other ends are not dead
+				}
+				// vacuous: the precondition is contradictory or no end of the function is reachable
+				reportedVac[r.Ob.Func] = true
 				r.Status = "vacuous"
 				failed = append(failed, r)
 			}
